@@ -188,6 +188,7 @@ class Walker:
     def __init__(self, func_info, index, inline_depth=3, no_inline=()):
         self.no_inline = set(no_inline)
         self.localprocs = {}
+        self.records = {}           # local dict with constant keys -> {key: hidden local name}
         self.yield_handlers = []
         self._method_procs = {}
         self.loop_keys = {}
@@ -738,6 +739,17 @@ class Walker:
                 self.assign_target(t, v, st)
             return
         t = st.targets[0]
+        if isinstance(t, ast.Name) and self.m is not None and self.make_record(t.id, st.value, st):
+            return
+        if isinstance(t, ast.Subscript) and isinstance(t.value, ast.Name) and t.value.id in self.records:
+            hidden = self.record_slot(t.value.id, t.slice, st)
+            if hidden is None:
+                return
+            new = ast.copy_location(ast.Assign(targets=[ast.Name(id=hidden, ctx=ast.Store())], value=st.value), st)
+            ast.fix_missing_locations(new)
+            self.assign(new)
+            self.refresh_record(t.value.id)
+            return
         # m = Module()
         if isinstance(t, ast.Name) and isinstance(st.value, ast.Call) and isinstance(st.value.func, ast.Name) \
                 and st.value.func.id == "Module":
@@ -871,6 +883,15 @@ class Walker:
 
     def augassign(self, st):
         t = st.target
+        if isinstance(t, ast.Subscript) and isinstance(t.value, ast.Name) and t.value.id in self.records:
+            hidden = self.record_slot(t.value.id, t.slice, st)
+            if hidden is None:
+                return
+            new = ast.copy_location(ast.AugAssign(target=ast.Name(id=hidden, ctx=ast.Store()), op=st.op, value=st.value), st)
+            ast.fix_missing_locations(new)
+            self.augassign(new)
+            self.refresh_record(t.value.id)
+            return
         # m.d.<domain> += ... / m.d["domain"] += ...
         dom = None
         if isinstance(t, ast.Attribute) and isinstance(t.value, ast.Attribute) and self.is_m(t.value.value) \
@@ -910,6 +931,60 @@ class Walker:
             return
         self.t.calls.append((('augstore', self.ex(t), ir.BINOPS[type(st.op)], self.ex(st.value)),
                              self.gen, self.dsl, st.lineno))
+
+    def make_record(self, name, value, st):
+        """name = {K: v, ...} / {k: v for k in <literal of constants>} in an elaborate(): a bundle of variables addressed by
+        constant keys.  Each entry becomes a hidden local, so that `name[K] |= x`, `name[K]` and `name.items()` are ordinary
+        accumulators, reads and a literal loop."""
+        pairs = None
+        if isinstance(value, ast.Dict) and value.keys and all(isinstance(k, ast.Constant) and isinstance(k.value, (str, int)) for k in value.keys):
+            pairs = [(k.value, v) for k, v in zip(value.keys, value.values)]
+        elif isinstance(value, ast.DictComp) and len(value.generators) == 1 and not value.generators[0].ifs and \
+                isinstance(value.generators[0].target, ast.Name) and isinstance(value.key, ast.Name) and \
+                value.key.id == value.generators[0].target.id:
+            it = value.generators[0].iter
+            if isinstance(it, (ast.Tuple, ast.List)) and it.elts and all(isinstance(e, ast.Constant) and isinstance(e.value, (str, int)) for e in it.elts) and \
+                    not any(isinstance(n, ast.Name) and n.id == value.key.id for n in ast.walk(value.value)):
+                pairs = [(e.value, value.value) for e in it.elts]
+        elif isinstance(value, ast.Call) and ast.unparse(value.func) == "dict.fromkeys" and 1 <= len(value.args) <= 2 and not value.keywords and \
+                isinstance(value.args[0], (ast.Tuple, ast.List)) and value.args[0].elts and \
+                all(isinstance(e, ast.Constant) and isinstance(e.value, (str, int)) for e in value.args[0].elts):
+            dflt = value.args[1] if len(value.args) == 2 else ast.copy_location(ast.Constant(value=None), value)
+            if isinstance(dflt, (ast.Constant, ast.Name)):          # one shared immutable default
+                pairs = [(e.value, dflt) for e in value.args[0].elts]
+        if pairs is None or len({k for k, _ in pairs}) != len(pairs) or len(pairs) > 8:
+            return False
+        # only when the dictionary is used as a bundle: subscripted, iterated with items()/values()/keys(), nothing else
+        par = {}
+        for n in ast.walk(self.fi.node):
+            for ch in ast.iter_child_nodes(n):
+                par[ch] = n
+        for n in ast.walk(self.fi.node):
+            if isinstance(n, ast.Name) and n.id == name and not (isinstance(n.ctx, ast.Store) and par.get(n) is st):
+                p_ = par.get(n)
+                if isinstance(p_, ast.Subscript) and p_.value is n:
+                    continue
+                if isinstance(p_, ast.Attribute) and p_.attr in ("items", "values", "keys") and isinstance(par.get(p_), ast.Call):
+                    continue
+                return False
+        slots = {}
+        for k, v in pairs:
+            hidden = f"__rec_{name}_{k}"
+            slots[k] = hidden
+            self.bind(hidden, self.ex(v))
+        self.records[name] = slots
+        self.refresh_record(name)
+        return True
+
+    def record_slot(self, name, slice_node, st):
+        k = ir.norm(self.ex(slice_node))
+        if k[0] == 'const' and k[1] in self.records[name]:
+            return self.records[name][k[1]]
+        self.unsupported(st, f"`{name}[{ast.unparse(slice_node)}]`: the key of the local record is not one of its constant keys here")
+        return None
+
+    def refresh_record(self, name):
+        self.env[name] = ('dict', tuple((('const', k), self.env.get(h, ('undef',))) for k, h in self.records[name].items()))
 
     def local_container_update(self, t, st):
         """xs[k] = v / d[k] |= v on a *local* list or dict of an elaborate(): the walker keeps the container's value as written
@@ -1208,10 +1283,30 @@ class Walker:
                             for n in ast.walk(self.fi.node)):
                 return self.for_literal(st, defs[0].value.elts)
         # for k, v in D.items() / for k in D / for v in D.values() with D a local dict display bound once: the rows in order
+        # {K: v, ...}.items() / .values() / .keys() of a dict display written in place (a propagated constant table), or the display itself
+        dd = st.iter.func.value if isinstance(st.iter, ast.Call) and isinstance(st.iter.func, ast.Attribute) and \
+            st.iter.func.attr in ("items", "values", "keys") and not st.iter.args and not st.iter.keywords else (st.iter if isinstance(st.iter, ast.Dict) else None)
+        if isinstance(dd, ast.Dict) and 0 < len(dd.keys) <= 8 and all(k is not None for k in dd.keys):
+            mode = st.iter.func.attr if isinstance(st.iter, ast.Call) else "keys"
+            rows = [ast.Tuple(elts=[k, v], ctx=ast.Load()) if mode == "items" else (v if mode == "values" else k) for k, v in zip(dd.keys, dd.values)]
+            for e in rows:
+                ast.copy_location(e, st)
+                ast.fix_missing_locations(e)
+            return self.for_literal(st, rows)
         dn = None
         if isinstance(st.iter, ast.Call) and isinstance(st.iter.func, ast.Attribute) and isinstance(st.iter.func.value, ast.Name) and \
                 st.iter.func.attr in ("items", "values", "keys") and not st.iter.args and not st.iter.keywords:
             dn, dmode = st.iter.func.value.id, st.iter.func.attr
+        if dn is not None and dn in self.records:
+            rows = []
+            for k, h in self.records[dn].items():
+                kk, hh = ast.Constant(value=k), ast.Name(id=h, ctx=ast.Load())
+                rows.append(ast.Tuple(elts=[kk, hh], ctx=ast.Load()) if dmode == "items" else (hh if dmode == "values" else kk))
+            for e in rows:
+                ast.copy_location(e, st)
+                for x in ast.walk(e):
+                    ast.copy_location(x, st)
+            return self.for_literal(st, rows)
         if dn is not None and self.env.get(dn, ('x',))[0] == 'dict':
             defs = [n for n in ast.walk(self.fi.node) if isinstance(n, ast.Assign) and len(n.targets) == 1 and
                     isinstance(n.targets[0], ast.Name) and n.targets[0].id == dn]
